@@ -491,11 +491,27 @@ def c06(pid, tier, seed, t0):
     decls = copyd(base)
     declfile = save_decls("C06", decls)
     legs = [trace_leg(pid, tier, seed, "base", decls, declfile, "base", q(tier, 1, 8), crate="rt-c06")]
+    # a user-written #[derive(Default)] next to a declared default: either rejected (conflicting impls) or, if it compiles,
+    # Default::default() still carries the declared value
+    import verdicts
+    dd = []
+    for k, (n, bits) in enumerate([(32, [3, 4, 28]), (8, [0, 7]), (24, [23, 1]), (128, [127, 64, 0]), (7, [6])]):
+        dd.append({"id": k, "name": "T", "n": n, "s": rustgen.storage_of(n), "def": [bits], "defform": "lit", "defsyn": "=" if k % 2 == 0 else ":",
+                   "debug": False, "fields": [], "enums": [], "nested": [], "struct_attrs": ["#[derive(Default)]"]})
+    units = [verdicts.decl_unit(d) for d in dd]
+    verdicts.batch_build("v-c06d", units, "dev")
+    alive = [d for d, u in zip(dd, units) if u.compiles]
+    derive_note = {"declarations": len(dd), "rejected_by_compiler": len(dd) - len(alive), "compiled_and_traced": len(alive)}
+    if alive:
+        alive = copyd(alive)
+        dfile = save_decls("C06d", alive)
+        legs.append(trace_leg(pid, tier, seed, "derive(Default)+default", alive, dfile, "base", 1, crate="rt-c06d"))
     finish(pid, tier, seed, t0, mc, legs,
            "all 128 base widths without default, all with a default (literal / named constant, `=` / legacy `:`; default bits no "
            "field covers; top-bit and all-ones defaults): new_with_raw_value->raw_value for 0, ones, alternating, every walking 1/0, "
            "random (all 2^N for N <= 10; <= 16 in thorough), ZERO, DEFAULT, Default::default(), new(), size_of/align_of vs the native "
-           "integer, Copy by use-after-copy", COMMON_ASSUMPTIONS)
+           "integer, Copy by use-after-copy; plus declarations that also carry a user #[derive(Default)]", COMMON_ASSUMPTIONS,
+           extra={"derive_default_family": derive_note})
 
 
 def c08(pid, tier, seed, t0):
